@@ -50,6 +50,8 @@ def canonical(f, v):
     """force the canonical shape the builder documents"""
     if f.name.startswith("modesense"):
         v["_block_descriptors"] = []
+        # pages without a field table cannot be built by the library (it raises): outside "structures with both directions"
+        v["mode_pages"] = [p for p in v["mode_pages"] if "_raw" not in p]
         if "longlba" in v:
             v["longlba"] = 0
     if f.name == "inquiry.standard":
